@@ -146,6 +146,9 @@ def make_log(recipe):
             for _c in range(ncol):
                 v = rng.normal(0, 3.0) * 10 ** int(rng.integers(-3, 4))
                 toks.append(f"{v:.8g}" if rng.random() < 0.8 else str(int(v)))
+                if recipe.get("nonfinite") and rng.random() < 0.15:
+                    # what LAMMPS prints for 0/0 or overflowing thermo quantities
+                    toks[-1] = ["nan", "-nan", "inf", "-inf"][int(rng.integers(0, 4))]
             step += int(rng.integers(1, 1000))
             width = int(rng.integers(1, 4))
             lines.append((" " * width) + (" " * width).join(toks) + trailing)
@@ -345,7 +348,7 @@ class World(WorldBase):
         return {"op": "write_log", "path": rng.choice(LOGS),
                 "recipe": {"nsec": rng.randint(0, 4), "maxrows": rng.choice([2, 6]),
                            "tail": rng.choice(["none", "none", "full-rows", "partial-row"]),
-                           "subseed": rng.randrange(1 << 40)}}
+                           "nonfinite": rng.random() < 0.3, "subseed": rng.randrange(1 << 40)}}
 
     def gen_read_log(self, rng):
         return {"op": "read_log", "path": rng.choice(sorted(self.logs))}
@@ -667,8 +670,11 @@ class World(WorldBase):
             if cols != sec["cols"]:
                 raise Violation(f"C19/log-section-columns:{tag}", f"section {i}: {cols} expected {sec['cols']} in {what}")
             want = np.array([[float(x) for x in row] for row in sec["rows"]]).reshape(len(sec["rows"]), len(sec["cols"]))
+            if len(df) and any(df[c].dtype.kind not in "fiu" for c in df.columns):
+                bad = [f"{c}:{df[c].dtype}" for c in df.columns if df[c].dtype.kind not in "fiu"]
+                raise Violation(f"C19/log-section-dtype:{tag}", f"section {i}: thermodynamic columns returned as non-numbers {bad} in {what}")
             got = df.to_numpy(dtype=float) if len(df) else np.zeros((0, len(cols)))
-            if got.shape != want.shape or not np.array_equal(got, want):
+            if got.shape != want.shape or not np.array_equal(got, want, equal_nan=True):
                 raise Violation(f"C19/log-section-rows:{tag}", f"section {i}: {got.shape[0]} rows {got.tolist()[:2]} expected {want.shape[0]} rows {want.tolist()[:2]} in {what}")
 
     def do_read_log(self, op):
